@@ -363,6 +363,18 @@ func c03Check(c C03Case, cx *h.Ctx) *h.Failure {
 		return h.Failf("validate/representation-dependent", "Validate() = %v for\n  %s\nbut %v for the same geometry re-expressed (ring start/direction, hole/member order, translation, reflection):\n  %s\noracle: %s", err, model, rerr, rep, rule)
 	}
 
+	// validity is a property of the XY point set: the same geometry with Z, M or ZM payload (every position,
+	// also a ring's closing one, carrying its own values) gets the same verdict
+	if model.CT == 0 {
+		lct := 1 + (len(c.RotSeed)+len(c.PermSeed)+absInt(c.TX))%3
+		lifted := c16TagWith(forceCT(model, lct), (c.TY+len(c.Reverse))%2 == 0)
+		lerr := lifted.ToGeom().Validate()
+		if (lerr == nil) != (err == nil) {
+			return h.Failf("validate/zm-dependent", "Validate() = %v for\n  %s\nbut %v for the same XY geometry with %s payload:\n  %s\noracle: %s", err, model, lerr, gm.CTName(lct), lifted, rule)
+		}
+		cx.Class("lifted=" + gm.CTName(lct))
+	}
+
 	// IsSimple / IsRing / IsClosed = definitional values
 	if f := c03Simple(model, g); f != nil {
 		return f
